@@ -48,7 +48,8 @@ NEG = {   # negative controls: cfg -> the law TLC must refute
 def _model_runs(cfgs, workers):
   out = {}
   for cfg in cfgs:
-    out[cfg] = tlc.run('Patch', cfg, timeout=2400, workers=workers, allow_violation=cfg in NEG)
+    # a refuted control stops at the first counter-example: one worker keeps its state counts reproducible
+    out[cfg] = tlc.run('Patch', cfg, timeout=2400, workers=1 if cfg in NEG else workers, allow_violation=cfg in NEG)
   return out
 
 
@@ -75,7 +76,7 @@ def run(chk):
       'equal leaves are the same value (small ints / interned strings): "returns the same value" is decided by == on leaves',
       'after a STOP only "nothing new is visited" is required of the remaining postorder calls',
   ]
-  nslices = 8 if thorough else 4
+  nslices = (12 if w >= 16 else 8) if thorough else 4
   t0 = time.time()
   with ThreadPoolExecutor(max_workers=nslices + 2) as ex:
     exports = [ex.submit(_export, tier, k, nslices) for k in range(nslices)]
@@ -163,7 +164,7 @@ def run(chk):
     # 3. histories: simulated sequences of patches / rebinds on one object
     t2 = time.time()
     hits = {}
-    batches = 8 if thorough else 2
+    batches = 4 if thorough else 2
     for b in range(batches):
       behaviours, rs = tlc.simulate('Patch', 'G04_sim.cfg', num=250 if thorough else 150, depth=10,
                                     seed=chk.seed * 100 + b + 1, name=f'g04-sim-{b}', timeout=1200)
